@@ -74,7 +74,7 @@ def run(ctx, res):
     for _ in range(ctx.n(500, 6000)):
         cfg, xs = gen_extreme(ctx.rng)
         extra.append({"cfg": cfg, "xs": xs, "impl": nnm.run_impl(cfg, xs), "tag": "extreme"})
-    cr2 = C.run_corr(ctx.pid, "nnm_ext", nnm.IMPORTS, "nnm_case", [c for c in extra if not nnm.ill_conditioned(c)], nnm.case_lit, "agree_nnm", shard=150, show="show_nnm")
+    cr2 = C.run_corr(ctx.pid, "nnm_ext", nnm.IMPORTS, "nnm_case", [c for c in extra if not nnm.ill_conditioned(c) and C.frac(c["cfg"]["u"]).denominator <= 2 ** 32], nnm.case_lit, "agree_nnm", shard=150, show="show_nnm")
     res.corr.append(("NonnegMean.estim/bet/test vs NNM model (grid stream)", cr, nnm.case_json))
     res.corr.append(("NonnegMean.estim/bet/test vs NNM model (extreme stream: tiny margins, error rates above the margin, runs of zeros)", cr2, nnm.case_json))
     nd = []
